@@ -52,9 +52,43 @@ pub(crate) fn crypto_secretbox_open_detached_inplace(
     computed_mac.update(data);
     let computed_mac = computed_mac.finalize_to_array();
 
-    cipher.apply_keystream(data);
-
+    // Only decrypt once the ciphertext has been authenticated, so that nothing
+    // derived from a forged ciphertext is handed back to the caller.
     if mac.ct_eq(&computed_mac).unwrap_u8() == 1 {
+        cipher.apply_keystream(data);
+        Ok(())
+    } else {
+        Err(dryoc_error!("decryption error (authentication failure)"))
+    }
+}
+
+pub(crate) fn crypto_secretbox_open_detached_copy(
+    message: &mut [u8],
+    mac: &Mac,
+    ciphertext: &[u8],
+    nonce: &Nonce,
+    key: &Key,
+) -> Result<(), Error> {
+    let mut cipher = XSalsa20::new(
+        GenericArray::from_slice(key),
+        GenericArray::from_slice(nonce),
+    );
+
+    let mut mac_key = crate::poly1305::Key::new();
+    cipher.apply_keystream(&mut mac_key);
+
+    let mut computed_mac = Poly1305::new(&mac_key);
+    mac_key.zeroize();
+
+    computed_mac.update(ciphertext);
+    let computed_mac = computed_mac.finalize_to_array();
+
+    // The message buffer is only written after the ciphertext has been
+    // authenticated.
+    if mac.ct_eq(&computed_mac).unwrap_u8() == 1 {
+        let message = &mut message[..ciphertext.len()];
+        message.copy_from_slice(ciphertext);
+        cipher.apply_keystream(message);
         Ok(())
     } else {
         Err(dryoc_error!("decryption error (authentication failure)"))
